@@ -672,6 +672,15 @@ func (e *Env) call(x *SExpr) Term {
 			e.fail("regex: %v", err)
 		}
 		return boolT(re)
+	case "deref":
+		need(1)
+		a := e.eval(x.Args[0])
+		if a.T != nil {
+			if pt, ok := a.T.Underlying().(*types.Pointer); ok {
+				return Term{fe.loadRef(e.st, a.S, pt.Elem()), fe.sorts.SortOf(pt.Elem()), pt.Elem()}
+			}
+		}
+		e.fail("deref of non-pointer %s", x.Args[0])
 	case "unix":
 		need(1)
 		a := args()
